@@ -357,13 +357,25 @@ func (b *builder) critical(ctx context.Context, st *St, who string, statePath st
 	}
 }
 
+// checkOpts: a call option reaches the node bodies of its own call only.
+func (b *builder) checkOpts(ctx context.Context, full string, os []lopt) {
+	tag := tagOf(ctx)
+	for _, o := range os {
+		b.env.Probes["lambda_option_seen"]++
+		if o.Tag != tag {
+			b.env.problem("C09/option-leak", fmt.Sprintf("node %s of run %s received the lambda option of run %s", full, tag, o.Tag))
+		}
+	}
+}
+
 func (b *builder) lambda(p *Plan, n *Node, full string) *compose.Lambda {
 	var fi compose.Invoke[M, M, lopt]
 	var fs compose.Stream[M, M, lopt]
 	var fc compose.Collect[M, M, lopt]
 	var ft compose.Transform[M, M, lopt]
 	if n.Native[PInvoke] {
-		fi = func(ctx context.Context, in M, _ ...lopt) (M, error) {
+		fi = func(ctx context.Context, in M, os ...lopt) (M, error) {
+			b.checkOpts(ctx, full, os)
 			return b.body(ctx, p, n, full, in, b.begin(ctx, full, PInvoke))
 		}
 	}
@@ -375,7 +387,8 @@ func (b *builder) lambda(p *Plan, n *Node, full string) *compose.Lambda {
 		return nil, false
 	}
 	if n.Native[PStream] {
-		fs = func(ctx context.Context, in M, _ ...lopt) (*schema.StreamReader[M], error) {
+		fs = func(ctx context.Context, in M, os ...lopt) (*schema.StreamReader[M], error) {
+			b.checkOpts(ctx, full, os)
 			out, err := b.body(ctx, p, n, full, in, b.begin(ctx, full, PStream))
 			if err != nil {
 				if me, ok := midFail(err); ok {
@@ -388,7 +401,8 @@ func (b *builder) lambda(p *Plan, n *Node, full string) *compose.Lambda {
 		}
 	}
 	if n.Native[PCollect] {
-		fc = func(ctx context.Context, in *schema.StreamReader[M], _ ...lopt) (M, error) {
+		fc = func(ctx context.Context, in *schema.StreamReader[M], os ...lopt) (M, error) {
+			b.checkOpts(ctx, full, os)
 			rec := b.begin(ctx, full, PCollect)
 			v, _, err := readAll(in)
 			if err != nil {
@@ -398,7 +412,8 @@ func (b *builder) lambda(p *Plan, n *Node, full string) *compose.Lambda {
 		}
 	}
 	if n.Native[PTransform] {
-		ft = func(ctx context.Context, in *schema.StreamReader[M], _ ...lopt) (*schema.StreamReader[M], error) {
+		ft = func(ctx context.Context, in *schema.StreamReader[M], os ...lopt) (*schema.StreamReader[M], error) {
+			b.checkOpts(ctx, full, os)
 			rec := b.begin(ctx, full, PTransform)
 			if !n.Early {
 				v, _, err := readAll(in)
